@@ -1,5 +1,6 @@
 (** C13 - Job bookkeeping: counters match tasks, complete exactly once, atomic submits. *)
 From HQ Require Import Base.Prelude Cluster.Types Cluster.Core Cluster.Reactor Cluster.Worker Cluster.Server Cluster.Sys Cluster.Monitors Cluster.ProofsJob Cluster.ProofsCore Cluster.ProofsMore Cluster.ProofsStep Cluster.ProofsSubmit.
+From HQ Require Cluster.WaitModel Cluster.WaitProofs.
 From Coq Require Import ZArith.
 Local Open Scope N_scope.
 
@@ -59,3 +60,114 @@ Print Assumptions C13_system_counters_exact.
 Print Assumptions C13_invariant_step.
 Print Assumptions C13_waiting_count_exact.
 Print Assumptions C13_auto_ids_exact.
+
+(** ** Last sentence of C13: "a client that submits a job and asks to be told when it ends always
+    receives the job's completion report" - on the yield-point model [Cluster/WaitModel.v] of
+    [client_rpc_loop] / [start_streaming] / [stream_events] / [EventStreamer] (a handler runs
+    atomically between two [await]s; between them any other server activity may run).  [cur cf]:
+    the current code (listener registered before the journal flush is awaited; new listener id =
+    largest id in use + 1), with or without a journal. *)
+
+(** For EVERY interleaving (any label sequence: connection steps of any number of connections, task
+    ends / cancels / closes / submits / forgets, journal acknowledgements, client closes): a
+    connection that submitted job [j] asking for its job events and was not closed by its client is
+    still being served, its listener is still registered under an id and a channel that no other
+    listener has, and the [JobCompleted j] events emitted so far (at most one) are exactly those
+    queued for it plus those already written to it. *)
+Theorem C13_wait_gets_completion : forall cf ls s c r j,
+  WaitProofs.cur cf -> WaitModel.wrun cf WaitModel.init ls = Ok s ->
+  WaitModel.w_conns s c = Some r -> WaitModel.c_job r = Some j -> WaitModel.c_closed r = false ->
+  (exists i l, WaitProofs.pc_lid (WaitModel.c_pc r) = Some i /\ In l (WaitModel.w_listeners s) /\ WaitModel.l_id l = i /\ WaitModel.l_chan l = c
+               /\ WaitModel.fcheck (WaitModel.l_filter l) (WaitModel.WvCompleted j) = true
+               /\ forall l', In l' (WaitModel.w_listeners s) -> WaitModel.l_id l' = i \/ WaitModel.l_chan l' = c -> l' = l)
+  /\ count_occ WaitModel.ev_eq_dec (WaitModel.w_log s) (WaitModel.WvCompleted j)
+     = (count_occ WaitModel.ev_eq_dec (WaitModel.c_queue r) (WaitModel.WvCompleted j)
+        + count_occ WaitModel.msg_eq_dec (WaitModel.c_sent r) (WaitModel.MEvent (WaitModel.WvCompleted j)))%nat
+  /\ (count_occ WaitModel.ev_eq_dec (WaitModel.w_log s) (WaitModel.WvCompleted j) <= 1)%nat.
+Proof. exact WaitProofs.wait_gets_completion. Qed.
+
+(** ... and once the job has completed, steps of the journal thread and of that connection alone
+    make the handler write [JobCompleted j] to the client. *)
+Theorem C13_wait_delivery_progress : forall cf ls s c r j,
+  WaitProofs.cur cf -> WaitModel.wrun cf WaitModel.init ls = Ok s ->
+  WaitModel.w_conns s c = Some r -> WaitModel.c_job r = Some j -> WaitModel.c_closed r = false -> In (WaitModel.WvCompleted j) (WaitModel.w_log s) ->
+  exists ls' s' r',
+    (forall l, In l ls' -> l = WaitModel.LFlushAck c \/ l = WaitModel.LConn c)
+    /\ WaitModel.wrun cf s ls' = Ok s' /\ WaitModel.w_conns s' c = Some r' /\ WaitModel.told r' j = true.
+Proof. exact WaitProofs.wait_delivery_progress. Qed.
+
+(** The corner case "already complete at the first yield" cannot occur: after the handler's first
+    atomic run the listener is registered and no [JobCompleted] of the job was emitted; a new job's
+    response makes the client wait iff the submit has a task. *)
+Theorem C13_wait_gets_completion_closed_immediately : forall cf ls s c r target n flt s',
+  WaitProofs.cur cf -> WaitModel.wrun cf WaitModel.init ls = Ok s ->
+  WaitModel.w_conns s c = Some r -> WaitModel.c_pc r = WaitModel.PcSubmitReq target n flt -> WaitModel.conn_step cf c s = Ok s' ->
+  exists r', WaitModel.w_conns s' c = Some r'
+    /\ (forall j, WaitModel.c_job r' = Some j ->
+          ~ In (WaitModel.WvCompleted j) (WaitModel.w_log s') /\ WaitModel.c_queue r' = []
+          /\ exists i l, WaitProofs.pc_lid (WaitModel.c_pc r') = Some i /\ In l (WaitModel.w_listeners s') /\ WaitModel.l_id l = i /\ WaitModel.l_chan l = c)
+    /\ (target = None -> WaitModel.f_jobs flt = None -> WaitModel.f_job_ev flt = true ->
+          WaitModel.c_job r' = Some (WaitModel.w_next_job s)
+          /\ let m := WaitModel.MResp (WaitModel.w_next_job s) (0 <? n) in
+             (exists i, WaitModel.c_pc r' = WaitModel.PcFlushReg i m) \/ WaitModel.c_sent r' = [m]).
+Proof. exact WaitProofs.wait_gets_completion_closed_immediately. Qed.
+
+(** At every check of a waiting connection whose handler is in its stream loop (the harness op
+    WAITCHECK), after the executor has run the connection to quiescence, the client has been told
+    iff the job has completed - the specification line of the harness scenario, as a theorem. *)
+Theorem C13_wait_check_spec : forall cf ls s c r i j,
+  WaitProofs.cur cf -> WaitModel.wrun cf WaitModel.init ls = Ok s ->
+  WaitModel.w_conns s c = Some r -> WaitModel.c_pc r = WaitModel.PcStream i ->
+  WaitModel.c_closed r = false -> WaitModel.c_job r = Some j ->
+  exists s', WaitModel.settle_conn cf c s = Ok s'
+             /\ WaitModel.observe s' c = Some (j, WaitModel.completed s j, WaitModel.completed s j).
+Proof. exact WaitProofs.wait_check_spec. Qed.
+
+(** An empty submit creates a job that is terminated from the start; the server never emits
+    [JobCompleted] for it (and by the previous theorem its client was not told to wait). *)
+Theorem C13_wait_empty_job_never_completes : forall cf ls s c r flt s' ls' s'',
+  WaitProofs.cur cf -> WaitModel.wrun cf WaitModel.init ls = Ok s ->
+  WaitModel.w_conns s c = Some r -> WaitModel.c_pc r = WaitModel.PcSubmitReq None 0 flt ->
+  WaitModel.conn_step cf c s = Ok s' ->
+  WaitModel.wrun cf s' ls' = Ok s'' -> ~ In (WaitModel.WvCompleted (WaitModel.w_next_job s)) (WaitModel.w_log s'').
+Proof. exact WaitProofs.empty_job_never_completes. Qed.
+
+(** Listener ids (and channels) are pairwise distinct in every reachable state; the [unwrap] in
+    [unregister_listener] is unreachable. *)
+Theorem C13_listener_ids_distinct : forall cf ls s,
+  WaitProofs.cur cf -> WaitModel.wrun cf WaitModel.init ls = Ok s ->
+  NoDup (map WaitModel.l_id (WaitModel.w_listeners s)) /\ NoDup (map WaitModel.l_chan (WaitModel.w_listeners s)).
+Proof. exact WaitProofs.listener_ids_distinct. Qed.
+
+Theorem C13_unregister_never_panics : forall cf ls site,
+  WaitProofs.cur cf -> WaitModel.wrun cf WaitModel.init ls = Panic site -> site = WaitModel.site_lid_overflow.
+Proof. exact WaitProofs.unregister_never_panics. Qed.
+
+(** The order before fix 74067fa (defect F13) and the seeded change m13 (id = len + 1) violate it. *)
+Theorem C13_wait_prefix_order_refuted :
+  exists ls s r, WaitModel.wrun WaitModel.cfg_prefix WaitModel.init ls = Ok s /\ WaitModel.w_conns s 0 = Some r
+    /\ WaitModel.c_job r = Some 1 /\ WaitModel.c_closed r = false /\ WaitModel.c_pc r = WaitModel.PcStream 1
+    /\ In (WaitModel.WvCompleted 1) (WaitModel.w_log s) /\ WaitModel.c_queue r = [] /\ WaitModel.c_sent r = [WaitModel.MResp 1 true]
+    /\ count_occ WaitModel.ev_eq_dec (WaitModel.w_log s) (WaitModel.WvCompleted 1)
+       <> (count_occ WaitModel.ev_eq_dec (WaitModel.c_queue r) (WaitModel.WvCompleted 1%N)
+           + count_occ WaitModel.msg_eq_dec (WaitModel.c_sent r) (WaitModel.MEvent (WaitModel.WvCompleted 1%N)))%nat.
+Proof. exact WaitProofs.prefix_order_refuted. Qed.
+
+Theorem C13_wait_len_plus_one_refuted :
+  (exists s, WaitModel.wrun WaitModel.cfg_len WaitModel.init WaitProofs.m13_prefix = Ok s /\ map WaitModel.l_id (WaitModel.w_listeners s) = [2; 2])
+  /\ (exists s r, WaitModel.wrun WaitModel.cfg_len WaitModel.init WaitProofs.m13_labels = Ok s /\ WaitModel.w_conns s 1 = Some r
+        /\ WaitModel.c_job r = Some 1 /\ WaitModel.c_closed r = false /\ In (WaitModel.WvCompleted 1) (WaitModel.w_log s)
+        /\ WaitModel.c_sent r = [WaitModel.MResp 1 true] /\ WaitModel.c_pc r = WaitModel.PcDone)
+  /\ WaitModel.wrun WaitModel.cfg_len WaitModel.init WaitProofs.m13_panic_labels = Panic WaitModel.site_unregister_unwrap.
+Proof. exact WaitProofs.len_plus_one_refuted. Qed.
+
+Check C13_wait_gets_completion.
+Print Assumptions C13_wait_gets_completion.
+Print Assumptions C13_wait_delivery_progress.
+Print Assumptions C13_wait_gets_completion_closed_immediately.
+Print Assumptions C13_wait_check_spec.
+Print Assumptions C13_wait_empty_job_never_completes.
+Print Assumptions C13_listener_ids_distinct.
+Print Assumptions C13_unregister_never_panics.
+Print Assumptions C13_wait_prefix_order_refuted.
+Print Assumptions C13_wait_len_plus_one_refuted.
